@@ -24,6 +24,7 @@ def jobs(tier):
         D = ['NHELD=%d' % n, 'OP=%d' % op]
         probe = True
         if q and op == 4: D.append('NOPROBE'); probe = False     # unlock-by-range followed by a probe takes ~8 min: thorough tier only
+        if q and op == 1: continue                               # try_lock_wait (by-reference variant) shares its logic with try_lock_wait2: thorough tier only (keeps the quick tier under ~6 min)
         J.append(Job('seq_%s_%dheld' % (names[op], n), SRC, 'harness_rangelock', defines=D, unwind=n + 2, shims=SH, tv=True, tv_vectors=400,
                      small=[0, 1, 2, 3, 4, 8, 2**64 - 1, 2**64 - 2], timeout=900 if q else 7000, mem_gb=16,
                      desc='%s from every reachable state of <= %d held ranges%s' % (names[op], n, ', then a probe' if probe else ''),
